@@ -43,3 +43,13 @@ void c24_trn(mjtNum l[3], mjtNum r[3], mjtNum rq[4], const mjtNum pos[3], const 
 void c24_frame(mjtNum f[9]) { mju_makeFrame(f); }
 void c24_euler(mjtNum q[4], const mjtNum e[3], const char* seq) { mju_euler2Quat(q, e, seq); }
 void c24_mat2quat(mjtNum m2[9], mjtNum q2[4], const mjtNum q[4]) { mjtNum m[9]; mju_quat2Mat(m, q); mju_mat2Quat(q2, m); mju_quat2Mat(m2, q2); }
+// quaternion integration composes the incremental rotation on the RIGHT (body frame): l = integrate(q, vel, scale), r = q * exp-rotation
+void c24_integrate(mjtNum l[4], mjtNum r[4], const mjtNum q[4], const mjtNum vel[3], mjtNum scale) {
+  mjtNum tmp[3], qrot[4];
+  mju_copy4(l, q);
+  mju_quatIntegrate(l, vel, scale);
+  mju_copy3(tmp, vel);
+  mjtNum angle = scale * mju_normalize3(tmp);
+  mju_axisAngle2Quat(qrot, tmp, angle);
+  mju_mulQuat(r, q, qrot);
+}
